@@ -250,7 +250,7 @@ func probeC03Marker() (bool, string) {
 }
 
 var specC03 = &Spec{
-	ID: "C03",
+	ID:   "C03",
 	Rule: "case = key pool of 3..7 prefix-related names + 4..40 steps (writes with every expected-revision class, so many fail; point / range / limited-range / count reads at every revision between first and current and at 0; re-reads of earlier requests), executed sequentially against a real backend and the reference MVCC model with exact comparison; non-trivial = history has a successful delete and a multi-version key, some read at a revision older than the newest write, and some range read covering >= 2 keys; distinct = SHA-1 of the serialised case",
 	Gen:  genC03,
 	New:  func() interface{} { return &c03Case{} },
